@@ -321,10 +321,11 @@ def oracle_program(prog, heapops=None):
         if when == "after" and st["op"] == "source" and not isinstance(env[k], tuple):
             srcinfo[k] = source_items(env[k])
         if when == "before":
-            # EVERY action that exists, whether or not the statement mentions it
-            snaps.clear()
+            # EVERY action that exists, whether or not the statement mentions it (nothing runs between two
+            # statements, so the state after the previous statement is the state before this one)
             for i, a in live.items():
-                snaps[i] = snapshot(a)
+                if i not in snaps:
+                    snaps[i] = snapshot(a)
             pending.clear()
             if heapops is not None and st["op"] == "transform" and st.get("func") in HEAP_FUNCS:
                 order = sorted(live)
@@ -343,6 +344,7 @@ def oracle_program(prog, heapops=None):
                     viol.append(({"kind": "operand-mutated", "op": st["op"], "changed": what[0]},
                                  f"statement {k} {st} changed {what} of existing action v{i} ({role}): {snaps[i]['dims']} {snaps[i]['coords']} -> {now['dims']} {now['coords']}",
                                  [k, i]))
+                snaps[i] = now
             if pending:
                 rec = {key: pending[key] for key in ("heap", "a", "kind", "targets", "dim", "axis")}
                 r = env[k]
@@ -584,7 +586,7 @@ def correspond(ctx):
     from ekw import c13_fluent as F
     from ekw import c14_fresh as X
     from ekw.core import CORPUS_DIR
-    n = ctx.budget(140, 4000)
+    n = ctx.budget(120, 4000)
     progs = list(_witnesses())
     for f in sorted(glob.glob(str(CORPUS_DIR / "C14_*.json"))):
         progs.append(json.load(open(f))["prog"])
